@@ -170,6 +170,8 @@ def pairs(ctx, n):
     rng = ctx.rng
     for _ in range(n):
         case = core.gen_election(rng, btypes=("app", "app", "app", "card", "cum", "ord"), m_lo=1, m_hi=6)
+        if rng.random() < 0.25:
+            case = core.gen_big_election(rng, btypes=("app", "app", "card", "ord"))
         cfg = rulegen.gen_rule_cfg(rng, case, rules=("mes",), allow_refuse=False)
         cfg["res"] = True
         cfg["analytics"] = True
